@@ -205,3 +205,104 @@ Section W.
     - destruct (chunk <? 0)%Z; [eexists; reflexivity|]. rewrite H. eexists; reflexivity.
   Qed.
 End W.
+
+(* ================= bounds on index decoding (C08) ================= *)
+Lemma uvarint_loop_n buf i x s v n :
+  uvarint_loop buf i x s = (v, n) -> (n <= Z.of_nat i + Z.of_nat (length buf))%Z.
+Proof.
+  revert i x s; induction buf as [|b r IH]; intros i x s H; cbn [uvarint_loop] in H.
+  - inversion H; subst. lia.
+  - destruct (Nat.eqb i 10); [inversion H; subst; cbn [length]; lia|].
+    destruct (b <? 128).
+    + destruct (Nat.eqb i 9 && (1 <? b)); inversion H; subst; cbn [length]; lia.
+    + apply IH in H. cbn [length]. lia.
+Qed.
+
+Lemma read_vli_shrinks buf v rest :
+  read_vli buf = Some (v, rest) -> (length rest < length buf)%nat.
+Proof.
+  unfold read_vli, uvarint. destruct (uvarint_loop buf 0 0 0) as [x n] eqn:E.
+  destruct ((n <=? 0)%Z || (maxInt64 <? zN x)%Z) eqn:G; [discriminate|].
+  intros H; inversion H; subst.
+  apply orb_false_iff in G as [G1 _]. apply Z.leb_gt in G1.
+  pose proof (uvarint_loop_n buf 0 0 0 x n E) as Hn.
+  rewrite skipn_length. lia.
+Qed.
+
+(* the record loop (after repair D3) appends at most |payload|/2 records,
+   whatever count the index declares *)
+Lemma read_chunks_bound fuel n buf acc chunks rest :
+  read_chunks fuel n buf acc = Some (chunks, rest) ->
+  (2 * length chunks + length rest <= 2 * length acc + length buf)%nat.
+Proof.
+  revert n buf acc; induction fuel as [|f IH]; intros n buf acc H; cbn [read_chunks] in H; [discriminate|].
+  destruct (n <=? 0)%Z.
+  - inversion H; subst. rewrite fast_rev_eq, rev_length. lia.
+  - destruct (read_vli buf) as [[c b1]|] eqn:E1; [|discriminate].
+    destruct (read_vli b1) as [[r b2]|] eqn:E2; [|discriminate].
+    apply read_vli_shrinks in E1. apply read_vli_shrinks in E2.
+    apply IH in H. cbn [length] in H. lia.
+Qed.
+
+Theorem index_records_bounded_by_payload n buf chunks rest :
+  read_chunks (S (length buf)) n buf [] = Some (chunks, rest) ->
+  (2 * length chunks <= length buf)%nat.
+Proof. intros H. apply read_chunks_bound in H. cbn [length] in H. lia. Qed.
+
+(* the pre-repair loop: a failed VLI read yields 0 and the loop goes on *)
+Fixpoint read_chunks_prefix (n : nat) (buf : list byte) (acc : list (Z * Z)) : list (Z * Z) :=
+  match n with
+  | O => rev acc
+  | S n' =>
+    let '(c, b1) := match read_vli buf with Some (c, b) => (c, b) | None => (0%Z, buf) end in
+    let '(r, b2) := match read_vli b1 with Some (r, b) => (r, b) | None => (0%Z, b1) end in
+    read_chunks_prefix n' b2 ((c, r) :: acc)
+  end.
+
+Theorem C08_D3_refuted n buf : length (read_chunks_prefix n buf []) = n.
+Proof.
+  assert (H : forall n buf acc, length (read_chunks_prefix n buf acc) = (n + length acc)%nat).
+  { clear. induction n as [|n IH]; intros buf acc; cbn [read_chunks_prefix].
+    - rewrite rev_length. reflexivity.
+    - destruct (read_vli buf) as [[c b]|]; destruct (read_vli _) as [[r b']|];
+        rewrite IH; cbn [length]; lia. }
+  rewrite H. cbn. lia.
+Qed.
+
+(* ================= I/O locality of Seek (C17) ================= *)
+(* a Seek appends at most one range to the log of accesses to the underlying
+   reader, and that range is the compressed span of one index record *)
+Theorem seek_io_local s off wh :
+  r_log (snd (seek s off wh)) = r_log s \/
+  exists prev curr, In curr (r_recs s ++ [mkRec (CompOffset prev) (RawOffset prev) unknownType]) /\
+    r_log (snd (seek s off wh)) =
+    r_log s ++ [(Z.to_N (CompOffset prev), Z.to_N (CompOffset curr - CompOffset prev))].
+Proof.
+  unfold seek, seek_gen.
+  destruct (match r_err s with Some e => negb (err_eqb e EEOF) | None => false end); [left; reflexivity|].
+  match goal with |- context[match ?o with Some _ => _ | None => _ end] => destruct o as [pos|] end;
+    [|left; reflexivity].
+  destruct (pos <? 0)%Z; [left; reflexivity|].
+  match goal with |- context[if ?c then _ else _] => destruct c end; [left; reflexivity|].
+  destruct (get_records (r_recs s) (r_ri s)) as [prev0 curr0].
+  match goal with |- context[get_records (r_recs s) ?x] => set (ri := x) end.
+  destruct (get_records (r_recs s) ri) as [prev curr] eqn:G.
+  right. exists prev, curr. split; [|reflexivity].
+  (* curr is either a record of the index or the end sentinel built from prev *)
+  unfold get_records in G.
+  set (n := zlen (r_recs s)) in *.
+  set (i := if (n <? ri)%Z then n else ri) in *.
+  inversion G as [[Hp Hc]].
+  destruct ((0 <=? i)%Z && (i <? n)%Z) eqn:Hi.
+  - apply in_or_app; left. unfold nth_rec.
+    apply andb_true_iff in Hi as [H0 H1]. apply Z.leb_le in H0. apply Z.ltb_lt in H1.
+    destruct (i <? 0)%Z eqn:Hn; [apply Z.ltb_lt in Hn; lia|].
+    apply nth_In. subst n. unfold zlen in H1. lia.
+  - apply in_or_app; right. left. reflexivity.
+Qed.
+
+(* refused seeks and in-chunk forward seeks touch nothing *)
+Theorem seek_refused_no_io s off :
+  r_err s = None \/ r_err s = Some EEOF -> (off < 0)%Z ->
+  r_log (snd (seek s off 0)) = r_log s.
+Proof. intros He Hn. rewrite (seek_negative s off He Hn). reflexivity. Qed.
